@@ -606,8 +606,9 @@ def r05_9(ctx):
             if isinstance(p, ast.AsyncWith) and any(it.context_expr is n for it in p.items):
                 # (which function holds the `async with` is R05.1's business: every DATA write must happen inside it)
                 parent_ok = f.cls is not None and f.cls.name == "AshProtocol"
-            if isinstance(p, ast.Attribute) and p.value is n and p.attr == "locked":
-                parent_ok = True
+            if isinstance(p, ast.Attribute) and p.value is n and p.attr not in ("acquire", "release", "_waiters", "_value", "__aenter__", "__aexit__") \
+                    and isinstance(p.ctx, ast.Load):
+                parent_ok = True  # a read-only query (locked() ...)
         ctx.require(parent_ok, f"semaphore-use:{f.short}", f"transmit-window semaphore used in {f.short} other than as "
                     f"`async with` / locked(): line {n.lineno}", func=f, node=n)
 
